@@ -154,6 +154,8 @@ def h_reno(cfg):
                 check('c17.timeout-cwnd', eq(cur['cwnd'], post['cwnd']))
                 check('c17.timeout-rto', eq(cur['rto'], post['rto']))
                 check('c17.timeout-at-expiry', eq(env.now, timers_before[new[0][0]]))
+                check('c17.timeout-leaves-the-rest', cur['dupack'] == pre['dupack'] and cur['ssthresh'] is pre['ssthresh']
+                      and cur['last_ack'] is pre['last_ack'], 'a timeout sets cwnd and doubles the RTO, nothing else')
                 check('c17.cwnd>=mss', ge(cur['cwnd'], MSS))
                 cover('timeout')
                 ntimeouts += 1
